@@ -165,6 +165,16 @@ class SymCtx(BaseCtx):
     def deep_pin(self, x, where=""):
         return arrstr.deep_pin(x, where)
 
+    def pin_all(self, where="pin_all"):
+        """concretise every named symbolic variable of this path (non-forking): from here on the path is a
+        representative concrete run (PATH_COMPLETE)"""
+        with NoTracing():
+            for name, (k, v) in list(self.named.items()):
+                if k == "arr":
+                    arrstr.pin(v, where)
+                elif k == "int":
+                    z3str.pin(SymbolicInt(v), where)
+
     # -- model evaluation -----------------------------------------------------------------------------------
     def model(self):
         with NoTracing():
@@ -241,6 +251,7 @@ def explore(harness, params=None, open_findings=(), budget_s=300.0, per_path_s=3
             for h in _RESET_HOOKS:
                 h()
             del z3str.PINNED[:]
+            del arrstr.SUBST[:]
             start = time.process_time()
             space = StateSpace(
                 execution_deadline=start + per_path_s, model_check_timeout=per_path_s / 2, search_root=root
